@@ -709,6 +709,7 @@ class Fxp():
         elif isinstance(val, (np.ndarray, np.generic)):
             if isinstance(val, object):
                 vdtype = type(val.item(0))
+                if vdtype is Fraction: vdtype = float
             else:
                 vdtype = val.dtype
             
@@ -741,6 +742,10 @@ class Fxp():
             else:
                 val, signed, n_word, _ = utils.str2num(val, self.signed, self.n_word, None, return_sizes=True)
                 n_frac = self.n_frac
+
+        elif isinstance(val, Fraction):
+            vdtype = float
+            val = np.array(val, dtype=object)   # exact rational value (rounded exactly)
 
         elif isinstance(val, Decimal):
             vdtype = float            # assuming float format
@@ -896,7 +901,9 @@ class Fxp():
                 # (unsigned 64 bits arrays beyond the int64 range keep their two's complement meaning)
                 if not (val.dtype.kind == 'u' and _int_max >= _int_limit):
                     _big_int = _int_max * conv_factor >= _int_limit or _int_min * conv_factor < -_int_limit or conv_factor >= _int_limit
-            if _big_int or np.max(val) >= 2**_n_word_max_ or np.min(val) < -2**_n_word_max_ or self.n_word >= _n_word_max_:
+            # exact rational values (Fraction) are rounded as python objects
+            _rational = val.dtype == object and any(isinstance(v, Fraction) for v in val.flat)
+            if _big_int or _rational or np.max(val) >= 2**_n_word_max_ or np.min(val) < -2**_n_word_max_ or self.n_word >= _n_word_max_:
                 val_dtype = object
                 val = val.astype(object)
             else:
